@@ -34,3 +34,15 @@ func WaitUntil(c *Cell, desc string, cond func() bool) {
 	x.Yield(cond, desc)
 	c.Touch()
 }
+
+// WaitQuiescent parks the calling thread until no other thread can make progress
+// (branching stays on while the others run).
+func WaitQuiescent(c *Cell) {
+	x := vrt.Cur()
+	if x == nil || x.Aborting() {
+		return
+	}
+	me := x.Me()
+	x.Yield(func() bool { return x.OthersIdle(me) }, "wait for quiescence")
+	c.Touch()
+}
